@@ -18,7 +18,7 @@ import (
 var Sigma = []string{
 	" ", "\t", "\n",
 	"a", "é", "true", "1", "1.5", "1.2.3", "٣",
-	`"s"`, `"q\"q"`, `"b\\"`, "\"x\\\ny\"", `"\z"`, `"u`,
+	`"s"`, `"q\"q"`, `"b\\"`, "\"x\\\ny\"", `"\z"`, `"u`, `"e\`,
 	"/r/", "/a//b/", "/u",
 	"//c", "/*c*/", "/*m\nn*/", "/*u",
 	"| d", "|",
